@@ -1258,8 +1258,11 @@ def _line_cb(code, line):
                 if t.name.startswith(d['thread']) and code.co_qualname.startswith(d['qual']):
                     d['seen'] = d.get('seen', 0) + 1
                     if d['seen'] == d['nth']:
-                        s.delays_fired.append((t.name, key, d['d'], s.now))
-                        s.sleep(d['d'])
+                        s.delays_fired.append((t.name, key, d.get('d', 0), s.now))
+                        if d.get('fn') is not None:
+                            d['fn']()            # e.g. a cyclic-GC run at exactly this line, in this thread
+                        else:
+                            s.sleep(d['d'])
         s.yield_point(key)
 
 
